@@ -11,6 +11,8 @@ CONSTANTS
  DevListFromReplica = FALSE
  DevNoFallbackOnCtxErr = FALSE
  DevReplicaTimeoutShadows = FALSE
+ Concurrent = TRUE
+ DevCoalesceIgnoresRange = FALSE
 INIT TInit
 NEXT TNext
 POSTCONDITION Reached
